@@ -72,6 +72,9 @@ type Rec struct {
 	Hook func(ctx context.Context, where string)
 	// Extra lets a check intercept unknown ops; return handled=false to fall through.
 	Extra func(ctx context.Context, r *Rec, stmt int, op string, w wire.DataWriter, params []wire.Parameter) (handled bool, err error)
+	// StmtOpts, when set, contributes extra statement options derived from the query text
+	// (e.g. WithParameters(ParseParameters(query)) as the documentation suggests).
+	StmtOpts func(query string) []wire.PreparedOptionFn
 	// ColNames, when set, names the columns (cycled) instead of a, b, c.
 	ColNames []string
 	// Retain receives values handed to callbacks, without copying (C18).
@@ -309,6 +312,9 @@ func (r *Rec) statement(i int, st Stmt, query string) *wire.PreparedStatement {
 	if st.NCols > 0 && containsOp(st.Ops, "p") {
 		// a parameter-echo statement declares one untyped parameter per echoed column
 		opts = append(opts, wire.WithParameters(make([]oid.Oid, st.NCols-1)))
+	}
+	if r.StmtOpts != nil {
+		opts = append(opts, r.StmtOpts(query)...)
 	}
 	return wire.NewStatement(fn, opts...)
 }
